@@ -489,13 +489,19 @@ def run_property(mod, tier, seed, only_sub=None, jobs=16):
             violations.append((s, case, f, path))
 
     # --- essential classes
+    essential_missing = []
     for s in subs:
         agg = per_sub.get(s.name)
         if not agg:
             continue
         for lb in s.essential:
             if agg["classes"].get(lb, 0) == 0 and not agg["truncated"]:
-                harness_errors.append(f"{s.name}: essential class {lb!r} was never generated")
+                if s.enumerate is not None:
+                    # a finite table that lacks a class it is supposed to contain is a defect of the harness
+                    harness_errors.append(f"{s.name}: essential class {lb!r} was never generated")
+                else:
+                    # a random run may miss a rare class at some seed: recorded (and printed), not an error of the check
+                    essential_missing.append(f"{s.name}:{lb}")
 
     # --- evidence
     total_eval = sum(a["evaluations"] for a in per_sub.values()) + replayed
@@ -539,6 +545,7 @@ def run_property(mod, tier, seed, only_sub=None, jobs=16):
             },
             "excluded": dict(sum((a["excluded"] for a in per_sub.values()), Counter())),
             "known_findings_hit": dict(khits),
+            "essential_classes_not_generated": essential_missing,
             "truncated": any(a["truncated"] for a in per_sub.values()),
             "exhaustive": False,
             "repo": env.REPO,
@@ -559,6 +566,8 @@ def run_property(mod, tier, seed, only_sub=None, jobs=16):
     for name, a in sorted(per_sub.items()):
         print(f"[{pid}/{name}] evaluations={a['evaluations']} distinct_nontrivial={len(a['nontrivial'])} "
               f"known_hits={sum(a['known_hits'].values())} truncated={a['truncated']} wall={a['wall_s']:.1f}s")
+    for em in essential_missing:
+        print(f"NOTE property={pid} class {em!r} that the generator is expected to produce did not occur at this seed")
     if harness_errors:
         for he in harness_errors:
             print(f"HARNESS-ERROR property={pid} {he}", file=sys.stderr)
